@@ -352,7 +352,8 @@ pub fn props_of(case: &CaseRec, p: &PresRec) -> Vec<String> {
     } else {
         v.push("C03".into());
         for e in &case.edits {
-            if e.k.starts_with("foot-") {
+            // (segments appended after the footer segment, or a dot inserted, are edits of the footer part too)
+            if e.k.starts_with("foot-") || e.k == "extra-seg" || e.k == "dot-insert" {
                 v.push("C05".into());
             }
             if e.k == "relabel" {
